@@ -64,6 +64,14 @@ Definition int_of_bits (l : list bool) : N := fold_left (fun acc b => (2 * acc +
 Definition sample_value (key : list bool) : N := int_of_bits (rev key).
 Definition sample_key (ord : string) (n : nat) (k : N) : list bool := int_to_binstr ord n k false.
 
+(* sampled part of _statevector_to_frequencies: the shots are drawn in chunks,
+     n_chunks = n_shots // chunk_size
+     for i in range(n_chunks + 1): this_chunk = n_shots % chunk_size if i == n_chunks else chunk_size
+   (whether the source still has this shape is a regenerated fact: BackendTables.sampling_loop_as_modelled) *)
+Definition chunk_sizes (n_shots chunk_size : nat) : list nat :=
+  map (fun i => if Nat.eqb i (n_shots / chunk_size) then n_shots mod chunk_size else chunk_size)
+      (seq 0 (n_shots / chunk_size + 1)).
+
 (* SympySimulator: "".join(str(bit) for bit in reversed(vec.qubit_values)); sympy's Qubit lists the
    most significant qubit first: qubit_values = msb_first *)
 Definition sympy_key (n : nat) (x : N) : list bool := rev (msb_first n x).
